@@ -159,7 +159,7 @@ namespace cppcms {
 						if(*buffer == crlfcrlf_[position_])
 							position_++;
 						else
-							position_=0;
+							position_ = (*buffer == crlfcrlf_[0]) ? 1 : 0;
 						if(position_ == crlfcrlf_.size()) {
 							if(!process_header(header_))
 								return parsing_error;
